@@ -542,14 +542,14 @@ PROPS = {
                       "*(field-name \":\" OWS value OWS CRLF), CRLF) applied to ser's head followed by anything returns exactly the status code, the automatic fields by their fixed rules, then the "
                       "response's own fields in the order added with their values minus surrounding blanks, and leaves the body untouched (thm_head_reads_back); the content-length numeral reads back as "
                       "the number of body bytes that follow (thm_content_length_is_body_length); an RFC 7230 section 4.1 chunked reader recovers from a body of unknown length exactly the bytes the source "
-                      "delivered and stops at the terminating chunk (thm_chunked_reads_back, thm_unknown_length_body_reads_back).",
+                      "delivered and stops at the terminating chunk (thm_chunked_reads_back, thm_unknown_length_body_reads_back). The setters with_header / with_status / with_type / with_body (unit errresp) change exactly what they name; with_header appends at the end of the field list.",
         "level_note": "Assumed: std's formatting of `{}` placeholders is concatenation of the literal pieces and the arguments' Display output "
                       "(decimal for integers, the text for strings); reason_phrase / ContentType::as_str are functions of their argument (their "
                       "texts are uninterpreted); what a body source delivers is a function of the body value (files do not change while sent); "
                       "the statement converting a field value to ISO-8859-1 is replaced by a stand-in keyed to its exact tokens (rule S1). "
                       "The read-back theorems hold under the property's own hypotheses, stated as preconditions: a three-digit code, names non-empty and free of ':' CR LF, values free of CR LF, and "
                       "reason phrase / content-type text free of CR LF (their texts are uninterpreted here; the bounded stand-in c06 checks every code and type on the real tables).",
-        "verus": ["respwrite", "respguard", "copy", "chunked", "respparse"],
+        "verus": ["respwrite", "respguard", "copy", "chunked", "respparse", "errresp"],
         "verus_thorough": [],
         "kani": [],
         "witness": "c06",
